@@ -166,11 +166,23 @@ let () = iter_lines (fun line ->
      | Some h' -> print_endline (show_list h' (nth1 l h) fuel))
   | "tr" :: bc :: cf :: bs :: al :: _ :: _ :: ops -> print_endline (trace bc cf bs al ops)
   | cmd :: bc :: cf :: bs :: al :: _ :: _ :: ops when String.length cmd > 3 && String.sub cmd 0 3 = "tr@" -> print_endline (trace bc cf bs al ops)
+  | ["u32gp"; bc; bs; _; h] ->
+    let c = zs bc in let b = (let x = zs bs in if BinInt.Z.ltb x (zi 4) then zi 4 else x) in
+    let big = zs "1099511627776" in
+    let mB k = BinInt.Z.mul k big in
+    print_endline (oc_str (fun a -> Printf.sprintf "%s %s %s" (sz (BinInt.Z.div a big)) (sz (BinInt.Z.modulo a big))
+                                     (sz (Gen_MemPoolUInt32.pvGetBufferSize c mB (zi 0) (zi 0) b (zi 0))))
+      (Gen_MemPoolUInt32.coq_GetRealPointer c mB (zi 0) (zi 0) b (zi 0) (zs h)))
+  | ["u32nb"; bc; bs; maxt; nbuf] ->
+    let c = zs bc in let b = (let x = zs bs in if BinInt.Z.ltb x (zi 4) then zi 4 else x) in
+    let mM = BinInt.Z.div (zs maxt) c in       (* constructor line 827 *)
+    print_endline (oc_str (fun (_, head) -> sz head)
+      (Gen_MemPoolUInt32.pvNewBuffer c (fun _ -> zi 0) (zi 0) mM b (zi 0) (zi 0) (zs nbuf)))
   | ["ctor"; bc; bs; al] ->
     let c = zs bc and a = zs al in
     let b = Gen_MemPoolConst.coq_CorrectBlockSize (zs bs) a c in
     if PoolLayout.check_params c b a then print_endline "ok"
-    else if BinInt.Z.gtb b (BinInt.Z.div (zs "18446744073709551615") c) then print_endline "length_error"
+    else if BinInt.Z.gtb b (BinInt.Z.div (sub (zs "18446744073709551615") (PoolLayout.max_overhead b a)) c) then print_endline "length_error"
     else print_endline "Stuck"
   | "mg" :: rest ->
     let (a, b) = split_at_slash [] rest in
